@@ -288,4 +288,58 @@ def rule_image_fire(P):
     return R
 
 
-RULES = [rule_counter_width, rule_mirror_simplify, rule_swap_loops, rule_image_fire]
+SMALL_CONSTS = ("smallestChunk()", "SmallestChunk", "MediumHoleSize")
+
+
+def rule_small_hole_threshold(P):
+    """Engler-style contradiction rule: within one memory manager, every place that decides whether a hole is 'small' (not tracked
+    in the free structure) compares against the smallest-chunk constant with the same strictness"""
+    R = RuleResult("sibling.small-hole-threshold", "in each hole-based memory manager all comparisons against the smallest tracked chunk size agree on strictness (`< c` / `>= c`), so the code that drops a leftover and the code that later looks it up classify it alike")
+    per_class = {}
+    for f in P.fns.values():
+        if not f["file"].startswith("memory_managers/") or not f.get("cfg") or "cls" not in f:
+            continue
+        g = Graph(f)
+        live = g.reach([g.entry])
+        for n in g.nodes:
+            if n.id not in live:
+                continue
+            text = None
+            if n.kind == "branch" and n.cond:
+                text = n.cond["text"]
+            elif n.kind == "ret":
+                text = n.ev.get("text")
+            if not text or not any(c in text for c in SMALL_CONSTS):
+                continue
+            m = re.search(r"(<=|>=|<|>)\s*(?:size_t\()?\s*(?:this->)?(?:[\w:<>]*::)?(smallestChunk\(\)|SmallestChunk|MediumHoleSize)", text)
+            flip = False
+            if not m:
+                m = re.search(r"(smallestChunk\(\)|SmallestChunk|MediumHoleSize)\)?\s*(<=|>=|<|>)", text)
+                flip = True
+            if not m:
+                continue
+            op = m.group(1) if not flip else {"<": ">", ">": "<", "<=": ">=", ">=": "<="}[m.group(2)]
+            family = "strict" if op in ("<", ">=") else "inclusive"       # `x < c` and `x >= c` draw the same line
+            per_class.setdefault(base_name(f["cls"]), []).append((family, op, text[:80], f, n.line))
+    if not per_class:
+        raise AnalysisBroken("sibling.small-hole-threshold: no comparison against a smallest-chunk constant found in memory_managers/")
+    for cls, sites in sorted(per_class.items()):
+        fams = {s[0] for s in sites}
+        for fam, op, text, f, line in sites:
+            R.functions.add(f["inst"])
+        iid = "%s: %d comparison(s) against the smallest chunk size agree (%s)" % (cls.replace(M, ""), len(sites), sorted({s[1] for s in sites}))
+        R.paths += len(sites)
+        if len(fams) == 1:
+            R.ok(iid, where(sites[0][3], sites[0][4]))
+        else:
+            from collections import Counter
+            major = Counter(s[0] for s in sites).most_common(1)[0][0]
+            odd = [s for s in sites if s[0] != major][0]
+            R.fail(iid, where(odd[3], odd[4]), Finding(R.rule, odd[3]["file"], base_name(odd[3]["q"]), "threshold",
+                   "`%s` draws the small-hole line differently from the other %d comparison(s) in this manager (%s): a hole of exactly the smallest size is dropped by one site and expected in the free structure by another" % (
+                       odd[2], len(sites) - 1, sorted({s[2] for s in sites if s[0] == major})[:2]), odd[4], inst=odd[3]["inst"]))
+    R.require_floor(2, "memory managers with a small-hole threshold")
+    return R
+
+
+RULES = [rule_counter_width, rule_mirror_simplify, rule_swap_loops, rule_image_fire, rule_small_hole_threshold]
